@@ -775,6 +775,12 @@ func (sc *serverConn) closeStream(st *stream, err error) {
 	}
 	delete(sc.streams, st.id)
 	if p := st.body; p != nil {
+		// The peer has debited its session window for the request body
+		// bytes that are still buffered and will now be discarded: return
+		// them, the handler will never read them.
+		if n := p.Len(); n > 0 {
+			sc.sendWindowUpdate(nil, n)
+		}
 		p.CloseWithError(err)
 		p.Release(&fixBufferPool)
 	}
